@@ -28,6 +28,7 @@ CONSTANTS
   CtcEqShape, \* BOOLEAN: also every (p => q) and (r => s) over literals
   CtcArith,   \* BOOLEAN: also comparison / arithmetic / aggregate constraints
   Fmt,        \* "" or a format: emit only models inside that format's fragment
+  Fmt2,       \* "" or a second format: ... and inside this one's too (cross-format chains)
   MaxLevel,   \* bound on behaviour length (safety net)
   Shape,      \* "" or "chain": restricts the trees that are built (checked on the successor state)
   Walks,      \* 0: exhaustive exploration; n > 0: n seeded random walks ("random larger ones")
@@ -163,7 +164,7 @@ LevelBound == TLCGet("level") <= MaxLevel
 
 ---------------------------------------------------------------------------
 (* Case emission: one JSON line per distinct state (generator runs only)   *)
-Emit == (Fmt = "" \/ InFrag(Fmt, model)) => PrintT(ToJson([hist |-> hist, model |-> model]))
+Emit == ((Fmt = "" \/ InFrag(Fmt, model)) /\ (Fmt2 = "" \/ InFrag(Fmt2, model))) => PrintT(ToJson([hist |-> hist, model |-> model]))
 
 \* under -simulate every sibling successor is evaluated: print only the states at the final level
 EmitSim == Emit
